@@ -579,6 +579,20 @@ def install(I):
         return I.top(targ(callee))
     m['#atomic_load'] = atomic_load
     m['#atomic_store'] = lambda I_, f, st, a, c: UNIT
+    m['#atomic_fence'] = lambda I_, f, st, a, c: UNIT
+    m['#atomic_singlethreadfence'] = lambda I_, f, st, a, c: UNIT
+
+    def zeroize_flat_type(I_, frame, st, args, callee):
+        # zeroize::zeroize_flat_type::<F>(p): overwrite size_of::<F>() bytes at p with zero
+        t = targ(callee)
+        loc = I.deref(args[0], t, st)
+        sz = I.types[t].get('size')
+        v = unflatten(I, [cint(8, 0)] * sz, t) if sz is not None else None
+        if v is None:
+            v = I.top(t)
+        I.write(st, loc, adapt_like(v, read_opt(st, loc)))
+        return UNIT
+    m['zeroize::zeroize_flat_type'] = zeroize_flat_type
 
     # ------------------------------------------------------------ simd / CPU intrinsics
     LOADS = re.compile(r'::(_mm_loadu?_si128|_mm_lddqu_si128|vld1q?_[a-z0-9]+)$')
